@@ -185,7 +185,7 @@ func (th *Thread) typeNamed(pkgPath, name string) types.Type {
 	panic(engineErr("type %s.%s not found", pkgPath, name))
 }
 
-func (th *Thread) writeTo(w Value, s string) Value {
+func (th *Thread) writeTo(w Value, s *StrV) Value {
 	iv, ok := w.(*IfaceV)
 	if !ok || iv.T == nil {
 		return TupleV{th.ctx().Const(64, 0), &IfaceV{}}
@@ -194,36 +194,37 @@ func (th *Thread) writeTo(w Value, s string) Value {
 	if m == nil {
 		panic(engineErr("Fprintf: writer %s has no Write", iv.T))
 	}
-	arr := &ArrV{E: make([]Value, len(s))}
-	for i := 0; i < len(s); i++ {
-		arr.E[i] = th.ctx().Const(8, uint64(s[i]))
+	arr := &ArrV{E: make([]Value, len(s.B))}
+	for i := range s.B {
+		arr.E[i] = s.B[i]
 	}
-	sl := &SliceV{O: th.p.newObj(arr, "fmtbuf"), Len: len(s), Cap: len(s)}
+	sl := &SliceV{O: th.p.newObj(arr, "fmtbuf"), Len: len(s.B), Cap: len(s.B)}
 	return th.callFunction(&FuncV{Fn: m}, []Value{iv.V, sl})
 }
 
 func init() {
 	intrinsics["fmt.Sprintf"] = func(th *Thread, fn *ssa.Function, args []Value) Value {
-		s, _ := th.format(th.argStrLoose(args[0]), th.variadic(args[1]))
-		return strConst(th.ctx(), s)
+		s, _ := th.formatV(th.argStrLoose(args[0]), th.variadic(args[1]))
+		return s
 	}
 	intrinsics["fmt.Errorf"] = func(th *Thread, fn *ssa.Function, args []Value) Value {
-		s, wrapped := th.format(th.argStrLoose(args[0]), th.variadic(args[1]))
+		sv0, wrapped := th.formatV(th.argStrLoose(args[0]), th.variadic(args[1]))
 		if len(wrapped) == 0 {
-			return th.newError(s)
+			return th.newErrorV(sv0)
 		}
 		if len(wrapped) == 1 {
 			t := th.typeNamed("fmt", "wrapError")
-			sv := &StructV{F: []Value{strConst(th.ctx(), s), wrapped[0]}}
+			sv := &StructV{F: []Value{sv0, wrapped[0]}}
 			return &IfaceV{T: types.NewPointer(t), V: &PtrV{O: th.p.newObj(sv, "wrapError")}}
 		}
+		s := sv0
 		t := th.typeNamed("fmt", "wrapErrors")
 		arr := &ArrV{E: make([]Value, len(wrapped))}
 		for i, w := range wrapped {
 			arr.E[i] = w
 		}
 		sl := &SliceV{O: th.p.newObj(arr, "errs"), Len: len(wrapped), Cap: len(wrapped)}
-		sv := &StructV{F: []Value{strConst(th.ctx(), s), sl}}
+		sv := &StructV{F: []Value{s, sl}}
 		return &IfaceV{T: types.NewPointer(t), V: &PtrV{O: th.p.newObj(sv, "wrapErrors")}}
 	}
 	sprint := func(ln bool) intrinsicFn {
@@ -246,14 +247,13 @@ func init() {
 	intrinsics["fmt.Sprint"] = sprint(false)
 	intrinsics["fmt.Sprintln"] = sprint(true)
 	intrinsics["fmt.Fprintf"] = func(th *Thread, fn *ssa.Function, args []Value) Value {
-		s, _ := th.format(th.argStrLoose(args[1]), th.variadic(args[2]))
+		s, _ := th.formatV(th.argStrLoose(args[1]), th.variadic(args[2]))
 		return th.writeTo(args[0], s)
 	}
 	fprint := func(ln bool) intrinsicFn {
 		return func(th *Thread, fn *ssa.Function, args []Value) Value {
 			s := sprint(ln)(th, fn, args[1:]).(*StrV)
-			cs, _ := s.Concrete()
-			return th.writeTo(args[0], cs)
+			return th.writeTo(args[0], s)
 		}
 	}
 	intrinsics["fmt.Fprint"] = fprint(false)
